@@ -254,9 +254,10 @@ const (
 	fNewPkg                  // a package was created
 	fMacroSite               // a macro expansion was evaluated at the call site
 	fWriteOther              // a definition landed in a package that is not the top-level current one
+	fLoaderScope             // an unqualified name in a loaded text went to the package although the lexical scope the loader was called from binds it
 )
 
-var featNames = []string{"cross-call", "lex", "lex-shadow", "pkg", "isolated", "qual-other", "qual-unexported", "snapshot", "load-restore", "copied", "new-pkg", "macro-site", "write-other"}
+var featNames = []string{"cross-call", "lex", "lex-shadow", "pkg", "isolated", "qual-other", "qual-unexported", "snapshot", "load-restore", "copied", "new-pkg", "macro-site", "write-other", "loader-scope"}
 
 func featString(f uint32) string {
 	var p []string
@@ -268,7 +269,7 @@ func featString(f uint32) string {
 	return strings.Join(p, "+")
 }
 
-const crossPackageFeats = fCrossCall | fLexShadow | fIsolated | fQualOther | fQualUnexp | fSnapshot | fLoadRestore | fCopied | fMacroSite | fWriteOther
+const crossPackageFeats = fCrossCall | fLexShadow | fIsolated | fQualOther | fQualUnexp | fSnapshot | fLoadRestore | fCopied | fMacroSite | fWriteOther | fLoaderScope
 
 type interp struct {
 	st     *state
@@ -279,6 +280,21 @@ type interp struct {
 	zoneOn []string // Z1: names whose binding in zonePkg may be either the old one or the source's
 	zonePk string
 	zoneSr string
+	// loaders: the lexical frames of the loader calls in progress, innermost
+	// last.  Bookkeeping for the loader-scope coverage counter only: no
+	// prediction reads it.
+	loaders []*frame
+}
+
+// underLoaderScope: name is not lexically bound where it stands, but a scope
+// some load in progress was called from binds it.
+func (in *interp) underLoaderScope(name string) {
+	for _, l := range in.loaders {
+		if l.find(name) != nil {
+			in.feats |= fLoaderScope
+			return
+		}
+	}
 }
 
 func isConst(name string) bool { return name == "true" || name == "false" }
@@ -361,6 +377,7 @@ func (in *interp) lookup(name string, lex *frame) (val, *merr) {
 		}
 		return fr.vars[name], nil
 	}
+	in.underLoaderScope(name)
 	if v, ok := cur.bind[name]; ok {
 		in.feats |= fPkgHit
 		return v, nil
@@ -462,7 +479,19 @@ func (in *interp) evalList(n *node, lex *frame) (val, *merr) {
 		case "use-package":
 			return in.formUsePackage(args, lex)
 		case "load-string":
-			return in.formLoad(args)
+			return in.formLoad(args, lex)
+		case "load-bytes":
+			// (load-bytes (to-bytes "source")): the same program given as bytes
+			if b := args[0]; b.k == 'l' && len(b.kids) == 2 && b.kids[0].isSym() && b.kids[0].s == "to-bytes" {
+				return in.formLoad(b.kids[1:], lex)
+			}
+			panic("c08 model: load-bytes needs (to-bytes program)")
+		case "load-file":
+			// (load-file "location"): the same program read from the source library
+			if args[0].k != 'F' {
+				panic("c08 model: load-file needs a program file")
+			}
+			return in.formLoad(args, lex)
 		}
 	}
 	fv, err := in.eval(head, lex)
@@ -624,6 +653,7 @@ func (in *interp) formSetBang(args []*node, lex *frame) (val, *merr) {
 		fr.vars[name] = v
 		return val{k: vNil, loose: true}, nil
 	}
+	in.underLoaderScope(name)
 	cur := in.st.pkgs[in.st.cur]
 	if _, ok := cur.bind[name]; !ok {
 		for pn, p := range in.st.pkgs {
@@ -884,9 +914,15 @@ func (in *interp) usePackage(name string) (val, *merr) {
 	return nilVal, nil
 }
 
-func (in *interp) formLoad(args []*node) (val, *merr) {
+// formLoad: the loaded forms are evaluated in order in the package current at
+// that point and with NO lexical environment (a loaded text is a separate
+// program: nothing in it stands inside the form that called the loader; lex,
+// the loader's scope, is only recorded for the coverage counter); the first
+// error stops the load; the package current before the load is current again
+// afterwards.
+func (in *interp) formLoad(args []*node, lex *frame) (val, *merr) {
 	prog := args[0]
-	if prog.k != 'P' {
+	if prog.k != 'P' && prog.k != 'F' {
 		panic("c08 model: load-string needs a program")
 	}
 	if prog.tail != "" {
@@ -894,11 +930,13 @@ func (in *interp) formLoad(args []*node) (val, *merr) {
 		return val{}, in.errf("error", "parse error")
 	}
 	saved := in.st.cur
+	in.loaders = append(in.loaders, lex)
 	restore := func() {
 		if in.st.cur != saved {
 			in.feats |= fLoadRestore
 		}
 		in.st.cur = saved
+		in.loaders = in.loaders[:len(in.loaders)-1]
 	}
 	res := nilVal
 	for _, f := range prog.kids {
